@@ -29,12 +29,12 @@ package machine
 //@   ensures r != nil && val(r) == 0 - val(a)
 
 //@ func (a *MonetaryInt) Gt(b *MonetaryInt) (r bool)
-//@   property C22 C23
+//@   property C22 C23 C27
 //@   requires a != nil && b != nil
 //@   ensures r == (val(a) > val(b))
 
 //@ func (a *MonetaryInt) Gte(b *MonetaryInt) (r bool)
-//@   property C22 C23
+//@   property C22 C23 C27
 //@   requires a != nil && b != nil
 //@   ensures r == (val(a) >= val(b))
 
@@ -44,17 +44,17 @@ package machine
 //@   ensures r == (val(a) < val(b))
 
 //@ func (a *MonetaryInt) Lte(b *MonetaryInt) (r bool)
-//@   property C22 C23
+//@   property C22 C23 C27
 //@   requires a != nil && b != nil
 //@   ensures r == (val(a) <= val(b))
 
 //@ func (a *MonetaryInt) Ltz() (r bool)
-//@   property C22 C23
+//@   property C22 C23 C27
 //@   requires a != nil
 //@   ensures r == (val(a) < 0)
 
 //@ func (a *MonetaryInt) Eq(b *MonetaryInt) (r bool)
-//@   property C22 C23
+//@   property C22 C23 C27
 //@   requires a != nil && b != nil
 //@   ensures r == (val(a) == val(b))
 
@@ -65,7 +65,7 @@ package machine
 // ---- Funding (funding.go) ----------------------------------------------------------------------
 
 //@ func (f Funding) TakeMax(amount *MonetaryInt) (result Funding, remainder Funding)
-//@   property C22 C23
+//@   property C22 C23 C27
 //@   requires amount != nil && wfParts(f.Parts)
 //@   ensures total(result.Parts) == min(max(val(amount), 0), total(f.Parts))
 //@   ensures forall a AccountAddress :: sumBy(result.Parts, a) + sumBy(remainder.Parts, a) == sumBy(f.Parts, a)
@@ -95,7 +95,7 @@ package machine
 //@     decreases len(f.Parts) - i
 
 //@ func (f Funding) Take(amount *MonetaryInt) (result Funding, remainder Funding, err error)
-//@   property C22 C23
+//@   property C22 C23 C27
 //@   requires amount != nil && wfParts(f.Parts)
 //@   ensures (err != nil) <==> (val(amount) < 0 || val(amount) > total(f.Parts))
 //@   ensures err != nil ==> isErr(err, ErrInsufficientFund)
@@ -127,7 +127,7 @@ package machine
 //@     decreases len(f.Parts) - i
 
 //@ func (f Funding) Concat(other Funding) (res Funding, err error)
-//@   property C22 C23
+//@   property C22 C23 C27
 //@   requires wfParts(f.Parts) && wfParts(other.Parts)
 //@   ensures (err != nil) <==> (f.Asset != other.Asset)
 //@   ensures err == nil ==> total(res.Parts) == total(f.Parts) + total(other.Parts)
@@ -136,14 +136,14 @@ package machine
 //@   note Concat overwrites the last element of the receiver's backing array in place; callers must not use the receiver's Parts afterwards (value semantics for slices; not checked)
 
 //@ func (f Funding) Total() (r *MonetaryInt)
-//@   property C22 C23
+//@   property C22 C23 C27
 //@   ensures r != nil && val(r) == total(f.Parts)
 //@   loop 1:
 //@     index k
 //@     invariant total != nil && val(total) == total_upto(f.Parts, k)
 
 //@ func (f Funding) Reverse() (r Funding)
-//@   property C22 C23
+//@   property C22 C23 C27
 //@   ensures r.Asset == f.Asset && len(r.Parts) == len(f.Parts)
 //@   ensures forall j int :: 0 <= j && j < len(f.Parts) ==> r.Parts[j] == f.Parts[len(f.Parts) - 1 - j]
 //@   ensures total(r.Parts) == total(f.Parts)
